@@ -478,6 +478,14 @@ def parse_file(path, want=None):
                     cur.skip = bool(want and not want(name))
                     fns[name] = cur
                 elif line.startswith(("const ", "static ")):
+                    mm = re.match(r"^(?:const|static) ([A-Za-z0-9_:]+): ([^=]*) = const (.*);$", line)
+                    if mm:
+                        f1 = Fn(mm.group(1), line)
+                        f1.is_const = True
+                        f1.skip = False
+                        f1.const_expr = mm.group(3)
+                        fns[mm.group(1)] = f1
+                        continue
                     if line.endswith(" = {"):
                         body = line[line.index(" ") + 1:-4]
                         d = 0
